@@ -471,17 +471,24 @@ def _run_scenario(inst, res):
         fresh = []
         for x_ in xs:
             gp_f, _, _ = dsg_pool.make_processor(name)
-            gi, xi, ai = gp_f.get_graph(list(x_))
-            fresh.append((conn_edges(gi), [float(v) for v in xi], [bool(v) for v in ai]))
+            try:
+                gi, xi, ai = gp_f.get_graph(list(x_))
+                fresh.append((conn_edges(gi), [float(v) for v in xi], [bool(v) for v in ai]))
+            except Exception as e_:  # noqa: a listed design has to decode
+                fresh.append(f'{type(e_).__name__}: {e_}')
+                _viol(res, 'scenario', dict(kind='listed_design_does_not_decode', template=name), cfg, dict(x=x_), fresh[-1], 'an instance')
         gp_h, _, _ = dsg_pool.make_processor(name)
         for order in (range(len(xs)), reversed(range(len(xs)))):
             for k_ in order:
                 res['obligations'] += 1
-                gi, xi, ai = gp_h.get_graph(list(xs[k_]))
-                got = (conn_edges(gi), [float(v) for v in xi], [bool(v) for v in ai])
+                try:
+                    gi, xi, ai = gp_h.get_graph(list(xs[k_]))
+                    got = (conn_edges(gi), [float(v) for v in xi], [bool(v) for v in ai])
+                except Exception as e_:  # noqa
+                    got = f'{type(e_).__name__}: {e_}'
                 if got != fresh[k_]:
                     _viol(res, 'scenario', dict(kind='decode_depends_on_history', template=name), cfg, dict(x=xs[k_]),
-                          dict(edges=got[0], x=got[1]), dict(fresh_processor_edges=fresh[k_][0], x=fresh[k_][1]))
+                          dict(decoded=got), dict(fresh_processor=fresh[k_]))
                 else:
                     res['discharged'] += 1
 
